@@ -157,6 +157,20 @@ theorem delivered_contents_immutable_needs_get :
   revert h1
   decide
 
+/-- The assumption on the consumer is needed as well: if a sequence may be handed back twice (two
+    `Put`s of the same slice), two later `Get`s return the same array, and the same statement is
+    false — for a sequence that was *never* finished: ESC `A` F (#A, array 0), `Finish(#A)` twice,
+    ESC `B` F with `Get` → array 0, ESC `C` F delivers #C over array 0 reading `[67]` and `Get`
+    returns array 0 again; the next ESC `D` overwrites what #C reads. -/
+theorem delivered_contents_immutable_needs_finish_once :
+    ¬ (∀ (ls : List Label) (s : St), run Cfg.finishTwice St.init ls = some s →
+        ∀ d ∈ s.delivered, (cells s.heap d.s.arr).take d.s.len = d.snap) := by
+  intro h
+  have h1 := h [.collect 65 2, .dispatch none, .finish 0, .clear, .collect 66 0, .dispatch (some 0),
+    .clear, .collect 67 0, .dispatch (some 0), .clear, .collect 68 0] _ rfl ⟨⟨0, 1⟩, [67]⟩ (by decide)
+  revert h1
+  decide
+
 /-! ### `paramPool` / `paramListPool`: `csi.Parameters` (a slice of slices) -/
 
 /-- **Delivered parameters are immutable.**  For every interleaving of the steps of `csiDispatch`
